@@ -166,7 +166,8 @@ def getvarpnc(f, varkeys, coordkeys=None, copy=True):
                           for k in coordvar.ncattrs()])
             outf.createVariable(coordkey, coordvar.dtype.char,
                                 coordvar.dimensions,
-                                values=coordvar[...], **propd)
+                                values=(coordvar[...].copy() if copy
+                                        else coordvar[...]), **propd)
             for dk in coordvar.dimensions:
                 if dk not in outf.dimensions:
                     dv = outf.createDimension(dk, len(f.dimensions[dk]))
